@@ -25,7 +25,7 @@ RULE = ("(1) inventory: in a fresh interpreter the re module is wrapped BEFORE p
         "time: R1 every input of length <= 48 finishes within 0.25 s; R2 between consecutive lengths La<Lb time may grow at "
         "most like a degree-8 polynomial (with a 2 ms noise floor); the slowest families per pattern / entry point are "
         "followed up to length 384. Non-trivial = the pattern / entry point rejects the input (the only situation where "
-        "backtracking cost shows); distinct = pattern or entry point + family.")
+        "backtracking cost shows); distinct = pattern or entry point + family. (4) every text position of 8 base documents is probed with a canary: text that reaches re as part of a PATTERN (unescaped) is confirmed end to end with a nested-quantifier pattern there and near-miss subjects elsewhere.")
 ASSUMPTIONS = ["CPU time (time.process_time) measured in the checking process with a virtual-time interval timer; thresholds leave > 100x margin over the slowest legitimate case",
                "an empirical cost model, not an ambiguity proof of the automata: a blow-up outside the explored families/lengths stays invisible"]
 FLOORS = {"distinct_nontrivial": 1500, "patterns": 300, "entry-points": 600}
